@@ -50,7 +50,9 @@ def doW : P String := do
   let M ← popNat; let n ← popNat
   let Kzz ← popMat M M; let Kzx ← popMat M n; let Kxx ← popMat n n; let mX ← popMat n 1
   let ε ← popRat; let εx ← popRat
-  let L ← popMat M M; let mw ← popMat M 1; let Sw ← popMat M M; let hasS ← popNat
+  let L ← popMat M M; let mw ← popMat M 1; let Sw ← popMat M M; let flag ← popNat
+  let hasS := flag % 2          -- flag = hasS + 2·trace_mode
+  let trace := flag / 2
   let Kt := addJitter Kzz ε
   match inv? L, inv? Kt with
   | some Li, some Ki =>
@@ -60,8 +62,12 @@ def doW : P String := do
     let gen := εx = ε
     let code : QF n Rat :=
       if gen then
-        (if hasS = 1 then { mean := Gen.VariationalAlgebra.wMean e, cov := Gen.VariationalAlgebra.wCov e }
-         else { mean := Gen.VariationalAlgebra.wMeanDelta e, cov := Gen.VariationalAlgebra.wCovDelta e })
+        (if trace = 1 then
+          (if hasS = 1 then { mean := Gen.VariationalAlgebra.wMeanTrace e, cov := Gen.VariationalAlgebra.wCovTrace e }
+           else { mean := Gen.VariationalAlgebra.wMeanTrace e, cov := Gen.VariationalAlgebra.wCovTraceDelta e })
+         else
+          (if hasS = 1 then { mean := Gen.VariationalAlgebra.wMean e, cov := Gen.VariationalAlgebra.wCov e }
+           else { mean := Gen.VariationalAlgebra.wMeanDelta e, cov := Gen.VariationalAlgebra.wCovDelta e }))
       else whitenedFwd Kzx Kxx mX εx Li mw Sw
     let cholArg := if gen then Gen.VariationalAlgebra.wCholArg e else Kt
     let (d, S0) := unwhiten L mw Sw
